@@ -949,6 +949,13 @@ def gen_s6_vectors(seed, tier):
             muts = ['all']
         else:
             muts = [k for k in kinds[:7] if rng.below(3) == 0] or ['bitflip']
+            # the order on the command line is the order in the library (first applicable mutator wins): any order, and now
+            # and then one kind named twice
+            for j in range(len(muts) - 1, 0, -1):
+                t_ = rng.below(j + 1)
+                muts[j], muts[t_] = muts[t_], muts[j]
+            if rng.below(5) == 0:
+                muts.append(rng.choice(muts))
             if rng.below(6) == 0:
                 muts.insert(rng.below(len(muts) + 1), 'all')
         rate = rng.choice([None, 0.1, 0.0, 1.0, 0.5, 2.5, -1.0, 0.25])
@@ -958,6 +965,11 @@ def gen_s6_vectors(seed, tier):
     k = n
     for (sd, txt) in ((10, '010'), (42, '0042'), (777, '0777'), (8, '08'), (2**63, None), (2**63 - 1, None), (2**64 - 1, None), (2**32, '04294967296')):
         vecs.append(dict(id='f%d' % k, protocol='-', seed=sd, seed_text=txt, min=None, max=None, mutators=[], rate=None, unsafe=0, ext=0, buf=0))
+        k += 1
+    # orders that differ from the enum's, on mutators that compete for the same values, at rate 1
+    for proto, muts in (('2', ['boundary', 'bitflip']), ('3', ['offbyone', 'boundary', 'bitflip']), ('4', ['character', 'stringlen']),
+                        ('1', ['memoindex', 'offbyone']), ('5', ['stringlen', 'bitflip', 'character', 'boundary']), ('2', ['bitflip', 'boundary', 'bitflip'])):
+        vecs.append(dict(id='f%d' % k, protocol=proto, seed=900 + k, min=None, max=None, mutators=muts, rate=1.0, unsafe=0, ext=0, buf=0))
         k += 1
     # every single flag on its own (a swapped or dropped flag must show)
     for proto in ('5', '2'):
